@@ -1,7 +1,7 @@
 #!/bin/bash
 # runall.sh <tier> <seed...>: runs every registered check for the given seeds, prints one summary line each
 TIER=$1; shift
-cd /verif
+cd "$(dirname "$0")/.."
 for s in "$@"; do
   for p in C01 C02 C03 C04 C05 C06 C07 C08 C09 C10 C11 C12 C13 C14 C15 C16 C17 C18 C19 C20; do
     t0=$(date +%s)
